@@ -147,6 +147,7 @@ func carriers() []carrierFn {
 		{"map-iface", anyV, viaCarrier(carrier.MapIface)},
 		{"slice-map", anyV, viaCarrier(carrier.SliceMap)},
 		{"map-25-entries", anyV, viaCarrier(carrier.MapLarge)},
+		{"url-parameter-151-of-200", strEnc, viaCarrier(carrier.UrlMany)},
 		{"struct-tag-field-70", func(v reflect.Value) bool { return true }, nil}, // filled below (needs TagOK)
 		{"url-single-raw", strV, u(func(v string) string { return "http://h/p?k=" + v })},
 		{"url-first-raw", strV, u(func(v string) string { return "http://h/p?k=" + v + "&a=1&z=zz" })},
